@@ -65,6 +65,14 @@ def run(tier, seed, findings):
                 except Exception:  # noqa: BLE001
                     pass
         pool = D.slice_pool(name, docs, rnd, 40 if tier == "quick" else 120)
+        structured = [Mark(mt, {k: {"ids": ["c1", {"n": 2}]} for k in mt.attrs}) for mt in S.marks.values() if mt.attrs]
+        for m in structured:
+            try:
+                d_ = D.mk_node(S, O.top, [D.mk_node(S, "paragraph", [D.mk_text(S, "t", [m]), D.mk_text(S, "u")])])
+                if O.valid(d_) is None:
+                    extra.append(d_)
+            except Exception:  # noqa: BLE001
+                pass
         for doc in docs + extra:
             call = dict(fn="Node.to_json/from_json", schema=name, doc=D.doc_json(doc))
             rec.case(("doc", name, orc.canon_json(call)), sample=dict(schema=name, doc=str(doc)))
@@ -98,7 +106,8 @@ def run(tier, seed, findings):
                     rec.violation("slice-reserialise", "re-serialisation differs", call)
             except Exception as e:  # noqa: BLE001
                 rec.violation("slice-json-raises", f"{type(e).__name__}: {e}", call)
-        for m in ops.marks_pool(S, O):
+        # marks whose attribute values are structured (lists / dictionaries are legitimate JSON attribute values)
+        for m in ops.marks_pool(S, O) + structured:
             call = dict(fn="Mark.to_json/from_json", schema=name, mark=orc.mark_key(m))
             rec.case(("mark", name, orc.canon_json(call)))
             try:
@@ -121,6 +130,12 @@ def run(tier, seed, findings):
             steps += [("AttrStep structured", AttrStep(rnd.randint(0, doc.content.size), "level", {"k": [1, 2]})),
                       ("AttrStep None", AttrStep(0, "level", None)),
                       ("DocAttrStep structured", DocAttrStep("meta", {"k": [1]}))]
+            from prosemirror.transform import AddMarkStep, AddNodeMarkStep, RemoveMarkStep, RemoveNodeMarkStep
+
+            for m in structured[:2]:
+                f_, t_ = sorted((rnd.randint(0, doc.content.size), rnd.randint(0, doc.content.size)))
+                steps += [("AddMarkStep structured", AddMarkStep(f_, t_, m)), ("RemoveMarkStep structured", RemoveMarkStep(f_, t_, m)),
+                          ("AddNodeMarkStep structured", AddNodeMarkStep(f_, m)), ("RemoveNodeMarkStep structured", RemoveNodeMarkStep(f_, m))]
             for desc, step in steps:
                 call = dict(fn="Step.to_json/from_json", schema=name, doc=D.doc_json(doc), step=desc)
                 try:
@@ -166,6 +181,11 @@ def run(tier, seed, findings):
                         mutate_json(j)
                         if orc.canon_json(step.value) != vb:
                             rec.violation("step-json-aliases", "mutating the JSON changed the step's value", call)
+                    elif hasattr(step, "mark"):
+                        vb = orc.canon_json(step.mark.attrs)
+                        mutate_json(j)
+                        if orc.canon_json(step.mark.attrs) != vb:
+                            rec.violation("step-json-aliases", "mutating the JSON changed the step's mark", call)
                 except ValueError:
                     rec.count("rejected by from_json (ValueError)")
                 except Exception as e:  # noqa: BLE001
